@@ -16,7 +16,7 @@ import os
 
 TMAX = 3
 THOROUGH = os.environ.get("VERIF_TIER") == "thorough"
-TDHCP = 3 if THOROUGH else 2   # table sizes for the expensive _dhcp contracts
+TDHCP = 4 if THOROUGH else 3   # table sizes for the expensive _dhcp contracts
 DEFAULT = 0o4444
 G = {"g_writes": Const(0), "g_to": Const(0), "g_type": Const(0), "g_h_to": Const(0), "g_h_from": Const(0),
      "g_h_type": Const(0), "g_h_res": Const(0), "g_h_id": Const(0), "g_msg": Const(b""), "g_to2": Const(0), "g_tlo": Const(0), "g_thi": Const(255)}
